@@ -526,6 +526,11 @@ func RunC13(c *Ctx) {
 		check(&h.Case{Family: c.Replay.Family, Desc: c.Replay.Desc, Input: c.Replay.Input()})
 		return
 	}
+	// the inputs live in read-only pages while the token functions and readers see them: a scanner that plants
+	// a sentinel in the caller's slice and restores it afterwards gives single-threaded callers the right answer
+	// and everybody who shares the bytes a wrong one; here the store faults (seeded change C13r10-m1)
+	gr := newGuardRunner(c, 8<<20, "C13", check)
+	defer gr.close()
 	sink := func(cs *h.Case) {
 		if !c.Mine(cs.Input) {
 			return
@@ -535,8 +540,7 @@ func RunC13(c *Ctx) {
 		if len(cs.Input) > 0 {
 			c.Rec.R.Nontrivial++
 		}
-		c.Mark("C13 "+cs.Family, cs.Input)
-		check(cs)
+		gr.add(cs)
 	}
 	// exhaustive table part: 85 whitespace prefixes x 256 next bytes x suffixes
 	ws := []byte{' ', '\t', '\r', '\n'}
